@@ -129,6 +129,9 @@ func c07Script(r *rand.Rand, n int) *scriptSpec {
 	if r.Intn(5) == 0 {
 		spec.Children = 1 + r.Intn(2)
 	}
+	if r.Intn(4) == 0 {
+		spec.CtxCancel = 1 + r.Intn(2)
+	}
 	return spec
 }
 
@@ -239,7 +242,14 @@ func c07Conc(c *caseCtx) (res caseResult) {
 			}}
 		}, "conc", actor.WithID("p"), actor.WithInboxSize(inbox))
 	} else {
-		pid = e.Spawn(func() actor.Receiver { return &concActor{st: st} }, "conc", actor.WithID("p"), actor.WithInboxSize(inbox))
+		sopts := []actor.OptFunc{actor.WithID("p"), actor.WithInboxSize(inbox)}
+		if r.Intn(4) == 0 {
+			// the actor's own spawn context is cancelled while it lives: that must not signal anybody
+			sctx, cancel := context.WithCancel(context.Background())
+			sopts = append(sopts, actor.WithContext(sctx))
+			cancel()
+		}
+		pid = e.Spawn(func() actor.Receiver { return &concActor{st: st} }, "conc", sopts...)
 	}
 	nSenders := r.Intn(5)
 	nCallers := 1 + r.Intn(4)
